@@ -73,7 +73,7 @@ def run(c):
     scratch = c.tmpdir("scratch")
     env = dict(os.environ, VERIF_SCRATCH=scratch)
     r = c.rng("histories")
-    plant = {"op": "exec", "args": [T, "plant", "reg", "/w/badelf", "garbage", "chmod", "/w/badelf", "755", "reg", "/w/noexec", "x",
+    plant = {"op": "exec", "args": [T, "plant", "fifo", "/w/fifo", "-", "reg", "/w/badelf", "garbage", "chmod", "/w/badelf", "755", "reg", "/w/noexec", "x",
                                     "chmod", "/w/noexec", "644", "reg", "/w/script", "#!/nonexistent/interp\n", "chmod", "/w/script", "755"],
              "_class": "plant", "_expect": [1]}
     cases = []
@@ -92,7 +92,7 @@ def run(c):
             elif k < 0.65:
                 ops.append({"op": "ping"})
             elif k < 0.78:
-                ops.append({"op": "open", "items": [{"path": r.choice(["/w/a", "/w/nodir/x", "/w/badelf", "/w/b"]), "flag": r.choice([0, 0o102]), "perm": 0o600}
+                ops.append({"op": "open", "items": [{"path": r.choice(["/w/a", "/w/nodir/x", "/w/badelf", "/w/b", "/w/fifo"]), "flag": r.choice([0, 0o102]), "perm": 0o600}
                                                     for _ in range(r.randint(1, 4))]})
             elif k < 0.86:
                 ops.append({"op": "delete", "path": r.choice(["/w/a", "/w/none"])})
@@ -174,11 +174,34 @@ def run(c):
     if cr[1].get("hang") or cr[1].get("fail") or cr[2].get("err"):
         c.finding_or_violation({"kind": "rpc", "what": "a call is not answered after a run whose cancellation crossed its own end", "class": "exitcross"},
                                {"history": "Execve(exit 0) cancelled at about its duration, then Ping; repeated", "observed": cr[1:3]}, klass="exitcross")
+    # ---- the container dies under the host: every later call has to fail, promptly (theorem transport_loss_fails_fast)
+    dead_ops = [{"op": "newenv"}, {"op": "exec", "args": ["/bin/true"]}, {"op": "killinit"}]
+    for k in range(14):
+        dead_ops.append([{"op": "ping"}, {"op": "exec", "args": ["/bin/true"]}, {"op": "delete", "path": "/w/a"}, {"op": "reset"},
+                         {"op": "open", "items": [{"path": "/w/a", "flag": 0, "perm": 0}]}, {"op": "symlink", "links": [{"link": "/w/l", "target": "x"}]}][k % 6])
+    dead_ops.append({"op": "newenv"})
+    dead = c.run_harness(exe, [{"id": 0, "ops": dead_ops}], env=env, timeout=300)[0]
+    c.count("dead-environment", nontrivial=True, klass="history:dead-environment")
+    for op, ob in zip(dead_ops[3:], dead["obs"][3:]):
+        if op["op"] == "newenv":
+            continue
+        if ob.get("hang"):
+            c.finding_or_violation({"kind": "rpc", "what": "a call on an environment whose container is gone never returns", "op": op["op"]},
+                                   {"history": dead_ops[:len(dead["obs"])], "observed": dead["obs"]}, klass="dead-env-hang")
+            break
+        failed = bool(ob.get("err")) or ob.get("status") == 8
+        if not failed or ob.get("ms", 0) > 3000:
+            c.finding_or_violation({"kind": "rpc", "what": "a call on an environment whose container is gone does not fail promptly", "op": op["op"], "ms": ob.get("ms")},
+                                   {"history": dead_ops[:len(dead["obs"])], "observed": dead["obs"]}, klass="dead-env")
+            break
     # ---- the oversize request (known finding): its own environment
     big = c.run_harness(exe, [{"id": 0, "ops": [{"op": "newenv"}, {"op": "exec", "args": ["/bin/true"], "env_bytes": 40000}, {"op": "ping"}, {"op": "newenv"}]}],
                         env=env)[0]["obs"]
     c.evaluations += 1
-    if big[2]["err"]:
+    if big[2].get("hang") or big[1].get("hang"):
+        c.finding_or_violation({"kind": "rpc", "what": "a call on an environment whose transport counts as lost never returns", "class": "oversize-request"},
+                               {"history": "Execve with a 40000-byte environment variable, then Ping", "observed": big[1:3]}, klass="dead-env-hang")
+    elif big[2]["err"]:
         c.finding_or_violation({"kind": "rpc", "what": "request-caused failure makes the environment unusable", "class": "oversize-request",
                                 "error": big[1]["errmsg"][:80]}, {"history": "Execve with a 40000-byte environment variable, then Ping", "observed": big[1:3]})
     c.cov["histories"] = nh
